@@ -22,7 +22,7 @@ const (
 	c01Canary   = "CANARY-7731-S3CR3T"
 )
 
-var c01Sinks = []string{"text", "vtext", "attr", "attr2", "bound", "vbind", "boundm", "class", "style", "boundstatic",
+var c01Sinks = []string{"text", "vtext", "attr", "attr2", "text2x", "attr2x", "boundm2x", // 2x: the same placeholder twice in one text run / attribute value "bound", "vbind", "boundm", "class", "style", "boundstatic",
 	// the {{ }} text sink under parents the HTML parser treats specially (raw text, RCDATA, foreign content, table/select scoping)
 	"text@noscript", "text@xmp", "text@iframe", "text@noembed", "text@noframes", "text@textarea", "text@title", "text@pre", "text@premix",
 	"text@option", "text@td", "text@svgtext", "text@button", "text@h1", "text@a", "text@li", "text@code", "vtext@textarea", "vtext@noscript",
@@ -141,6 +141,12 @@ func c01SinkEl(sink, nbh, e, extra string) (el string, sinkAttr string, lDec, rD
 		return open + `>lead ` + lS + `<template v-if="t">a</template><template v-if="t">{{ ` + e + ` }}</template>` + rS + `</p>`, "", "", "", false
 	case "bracket":
 		return open + ` [title]="` + lS + `{{ ` + e + ` }}` + rS + `">k</p>`, "title", lD, rD, true
+	case "text2x":
+		return open + `>` + lS + `{{ ` + e + ` }}|{{ ` + e + ` }}` + rS + `</p>`, "", "", "", false
+	case "attr2x":
+		return open + ` title="` + lS + `{{ ` + e + ` }}|{{ ` + e + ` }}` + rS + `">k</p>`, "title", "", "", false
+	case "boundm2x":
+		return open + ` :title="{{ ` + e + ` }}{{ ` + e + ` }}">k</p>`, "title", "", "", false
 	case "attr2":
 		return open + ` title="` + lS + `{{ ` + e + ` }}|{{ w }}` + rS + `">k</p>`, "title", lD, "|W" + rD, true
 	case "bound":
